@@ -122,6 +122,16 @@ def hand_written():
         # single task, empty views
         [t([])],
         [t([["id", -1]]), t([["m", 3]], ["or", ["has", 0], ["has", 1]])],
+        # an entry view of every kind reaching archetypes the task's own query does not match, next to a
+        # task of the following stage that conflicts only through that entry view
+        [t([["r", 0]], entry=[["r", 1]]), t([["m", 1]])],
+        [t([["r", 0]], entry=[["or", 1]]), t([["m", 1]])],
+        [t([["r", 0]], entry=[["m", 1]]), t([["r", 1]])],
+        [t([["r", 0]], entry=[["om", 1]]), t([["r", 1]])],
+        [t([["m", 1]]), t([["r", 0]], entry=[["r", 1]])],
+        [t([["r", 1]]), t([["r", 0]], entry=[["om", 1]])],
+        [t([["r", 0]], ["not", ["has", 1]], entry=[["r", 1]]), t([["m", 1]]), t([["r", 2]])],
+        [t([["m", 2]], ["not", ["has", 1]], entry=[["m", 1]]), t([["or", 1]]), t([["r", 0]])],
     ]
 
 
